@@ -11,15 +11,49 @@ from ..util import call
 from . import api
 
 
+class _TaskError(Exception):
+    def __init__(self, idx):
+        super().__init__(f"task {idx}")
+        self.idx = idx
+
+
 def run_pool(case):
-    """case: n tasks, order (permutation, completion order to force)."""
-    from groupby_lib.util import parallel_map
+    """case: n tasks, order (permutation, completion order to force), raises (0-based indices of raising tasks),
+    reduce (1: through util.parallel_reduce with list-valued partial results)."""
+    import contextlib
+    import io
+    from groupby_lib.util import parallel_map, parallel_reduce
     n, order = case["n"], list(case["order"])
+    raises = sorted(case.get("raises") or [])
+    red = bool(case.get("reduce"))
+
+    def task(i):          # i = 1-based task number
+        if i - 1 in raises:
+            raise _TaskError(i - 1)
+        return [100 + i] if red else 100 + i
+
     sched.install()
+    tr = {"n": n, "want": order, "raises": raises, "results": [], "reduced": [], "exc": -1, "reduce": int(red)}
     with sched.forced(lambda k, o=order: o if k == len(o) else None) as log:
-        res = parallel_map(lambda i: 100 + i, [(i + 1,) for i in range(n)])
-    tr = {"n": n, "want": order, "order": log[0]["observed"] if log else [], "results": [int(x) for x in res],
-          "forced": int(bool(log) and log[0]["order"] == order)}
+        try:
+            with contextlib.redirect_stdout(io.StringIO()):       # ("Item at index ... generated an exception")
+                if red:
+                    out = parallel_reduce(task, "sum", [(i + 1,) for i in range(n)])
+                    tr["reduced"] = [int(x) for x in out]
+                    tr["results"] = [int(x) for x in out] if not raises else []    # (the gathered list itself is not visible)
+                else:
+                    out = parallel_map(task, [(i + 1,) for i in range(n)])
+                    tr["results"] = [int(x) for x in out]
+            tr["outcome"] = "returned"
+        except _TaskError as ex:
+            tr["outcome"], tr["exc"] = "raised", ex.idx
+        except Exception as ex:       # any other exception is not a behaviour of the pool model
+            tr["outcome"], tr["exc"], tr["msg"] = "crash", -1, f"{type(ex).__name__}: {ex}"[:200]
+    obs = log[0]["observed"] if log else ([0] if n == 1 else [])
+    if tr["outcome"] == "raised" and tr["exc"] in obs:
+        obs = obs[:obs.index(tr["exc"]) + 1]          # what completed afterwards (the executor drains) is not met by the loop
+    tr["order"] = obs
+    tr["forced"] = int(bool(log) and log[0]["order"] == order)
     return tr
 
 
